@@ -115,7 +115,8 @@ pub fn case(ctx: &mut Ctx, idx: u64) {
     // ---- (1) representations of the same legacy combination
     let n_sets = if ctx.thorough() { 4 } else { 2 };
     for _ in 0..n_sets {
-        let bits = sets::gen_legacy_bits(&mut rng, mode);
+        // the property quantifies over NF EZ TD HD HR DT NC HT FL SO RX AP and the mania key mods: nothing else is generated
+        let bits = sets::gen_legacy_bits(&mut rng, mode) & !sets::SD;
         let mk = |repr: Repr| SetSpec {
             mods: ModSpec {
                 bits,
@@ -144,7 +145,7 @@ pub fn case(ctx: &mut Ctx, idx: u64) {
         } else {
             rng.frange(lo, hi)
         };
-        let other = sets::gen_legacy_bits(&mut rng, mode) & !(DT | NC | HT);
+        let other = sets::gen_legacy_bits(&mut rng, mode) & !(DT | NC | HT | sets::SD);
         let bits = other | rate_bits;
         let a = SetSpec {
             mods: ModSpec {
